@@ -25,19 +25,25 @@ import common
 from common import Result, parse_kv, canon, w_text
 
 LEVEL_TEXT = (
-    'Lean theorems over an abstract Python object graph with a model of jsonpickle as observed '
-    '(keys=True, allow-list / importable classes, slot-only objects rebuilt through __getnewargs__, shared '
-    'objects as aliases): writer and reader choose the same opener for every file name; the keys written are '
-    'the keys read; every dataclass that can occur in a persisted model is in the allow-list; decode (encode g) '
-    '= g for every encodable graph, hence construct (persist m) = m for every Persistable model, and freshly '
-    'built, compiled, evaluated, overwritten and restored models are Persistable. jsonpickle itself is '
-    'modelled, not verified: the strength of this check is the differential run (generated models x 4 history '
-    'points x 4 file extensions, deep comparison and re-evaluation of every cell).')
+    'Lean theorems over an abstract Python object graph with a model of jsonpickle as observed (allow-list / '
+    'importable classes, slot-only objects rebuilt through __getnewargs__, shared objects as aliases, encoder '
+    'recursion): writer and reader choose the same opener for every file name, and it is gzip exactly for the '
+    'names whose lower-cased extension is .gz/.gzip (the model of os.path.splitext is proved equal to the '
+    'reference reading of "extension" for every path); the keys written are the keys read; every dataclass that '
+    'can occur in a persisted model is in the allow-list; decode (encode g) = g for every encodable graph '
+    '(structural induction), hence construct (persist m) = m for every Persistable model (guarded by the encoder '
+    'depth: finding D1201), the restored model shows the same cells / formulae / names / ranges, compiles to the '
+    'compiled original and so evaluates identically; built, compiled, evaluated, overwritten and restored models '
+    'are Persistable. jsonpickle itself is modelled, not verified: the strength of this check is the '
+    'differential run (generated models x 4 history points x 4 file extensions, deep comparison and '
+    're-evaluation of every cell; the Lean model is also asked whether every real state is Persistable).')
 LEVEL_NOTE = (
     'Trusted: Lean kernel (axioms propext, Classical.choice, Quot.sound); jsonpickle, json, gzip and '
-    'os.path.splitext (modelled as observed, tied by the correspondence only); the tables regenerated from '
-    'the running code (dataclass fields, persisted / read keys, allow-list, gzip extension tests, '
-    '__getnewargs__); the formula parser and evaluator are uninterpreted parameters of the Lean model.')
+    'str.lower (modelled as observed, tied by the correspondence only); the tables regenerated from the running '
+    'code (dataclass fields, persisted / read keys, allow-list, gzip extension tests, __getnewargs__, whether the '
+    'AST is persisted); the formula parser and evaluator are uninterpreted parameters of the Lean model. '
+    'Partial: restore theorems carry the guard Persistable (encodable and not nested deeper than the encoder '
+    'allows) because of finding D1201.')
 DESIGN_REF = '§4 C12'
 
 TRUSTED = [
@@ -52,8 +58,10 @@ TRUSTED = [
     'the harness walker that abstracts a live model into the object graph sent to the Lean driver',
 ]
 ASSUMPTIONS = [
-    'dict keys (cell addresses, defined names) are not jsonpickle tags (py/object, py/id, ...): Excel forbids '
-    '"/" in sheet and defined names, so such keys cannot come from a workbook',
+    'dict keys (cell addresses, defined names) are not jsonpickle tags (py/object, py/id, ...) and do not start '
+    'with "json://": Excel forbids "/" in sheet and defined names, so such keys cannot come from a workbook '
+    '(observed: for a sheet called "json://s" jsonpickle escapes the keys and then resolves the back references '
+    'of formulae/defined_names to the wrong objects)',
     'volatile functions (NOW, TODAY, RAND) are not generated: their value legitimately differs between the '
     'two evaluations',
     'uuid identifiers of re-parsed tokens and AST nodes are fresh by design and are not compared; the AST is '
@@ -61,6 +69,8 @@ ASSUMPTIONS = [
     'the order of dict entries and the identity (aliasing) of shared objects are compared too, but a '
     'difference there alone is reported as model drift, not as a violation (the statement is silent)',
     'equality of values: same canonical value (common.canon) and, for zero, the same sign; NaN equals NaN',
+    'whole-column / whole-row ranges (a million cells) are not generated; array results stored in a cell are '
+    'generated but opaque to the Lean model (a library object with its own jsonpickle handler)',
     'the jsonpickle allow-list is only needed where a class cannot be imported by name; the probe that '
     'blocks the import fallback for xlcalculator.xltypes / xlcalculator.tokenizer is part of the check',
 ]
@@ -333,7 +343,12 @@ def build_state(spec, point):
     if point >= 3:
         ev = Evaluator(m)
         for a, v in spec['overwrites']:
-            ev.set_cell_value(a, untag(v))
+            if '!' not in a and a not in m.defined_names:
+                continue    # a defined name the loader did not accept (C11's business)
+            if a in m.cells and len(a) % 3 == 0:
+                ev.set_cell_value(m.cells[a], untag(v))     # the XLCell form of the address
+            else:
+                ev.set_cell_value(a, untag(v))
         evaluate_all(m)
     return m
 
@@ -650,8 +665,7 @@ def matrix_wire(v):
     for r in v:
         if type(r) is not list or not all(type(c) is str for c in r):
             return '?'
-        rows.append('+'.join(common.textWire(c) if hasattr(common, 'textWire') else '.'.join(str(ord(ch)) for ch in c)
-                             for c in r))
+        rows.append('+'.join(dotted(c) for c in r))
     return '[' + '/'.join(rows) + ']'
 
 
@@ -700,7 +714,7 @@ def obs_wire(m):
             ranges.append('~'.join([dotted(k), opt_val(vars(r), 'address_str'), matrix_wire(vars(r).get('cells'))]))
         else:
             ranges.append(dotted(k) + '~?')
-    return '|'.join([';'.join(cells), ';'.join(formulae), ';'.join(names), ';'.join(ranges)])
+    return '|'.join([' '.join(cells), ' '.join(formulae), ' '.join(names), ' '.join(ranges)])
 
 
 # ------------------------------------------------------------------------------------------ the run
@@ -730,17 +744,38 @@ def deep_specs():
     return out
 
 
+def unordered(wire):
+    """The observable with the entries of every dict sorted: the statement does not speak about order."""
+    if wire.startswith('X:'):
+        return wire
+    return '|'.join(' '.join(sorted(sec.split(' '))) for sec in wire.split('|'))
+
+
+def special_specs():
+    """A sheet whose name looks like a jsonpickle tag (the keys `py/object!A1` are not tags).
+    Keys that start with `json://` are outside the domain (see ASSUMPTIONS)."""
+    return [{'id': 'special-keys', 'default_sheet': 'Sheet1',
+             'cells': [['py/id!A1', ['int', '2']], ['py/id!B1', ['str', '=A1+1']],
+                       ['Sheet1!A1', ['str', '=3*2']], ['py/object!A1', ['int', '1']],
+                       ['py/object!A2', ['str', '=A1&"x"']], ['json:!A1', ['str', 'json://v']]],
+             'post_sets': [], 'names': {'py_n': "'py/id'!$A$1"},
+             'overwrites': [['py/id!A1', ['int', '5']]]}]
+
+
 def classify_rt(res, ctx, case, real, d, listed):
     """One round trip: `real` = observable of the really restored model (or X:<Exception>),
     `d` = the driver's answer for the state that was persisted."""
     spec, impl, kf = d['spec'], d['impl'], d.get('kf', '')
     res.evaluations += 1
-    if real == spec:
+    if unordered(real) == unordered(spec):
+        if real != spec:
+            res.drift.append({'case': case_id(case), 'what': 'beyond the statement: the order of dict entries changed',
+                              'diff': diff_obs(spec, real)})
         if impl != real:
-            res.drift.append({'case': case, 'what': 'the modelled restore differs from the real one (which meets the spec)',
+            res.drift.append({'case': case_id(case), 'what': 'the modelled restore differs from the real one (which meets the spec)',
                               'impl_model': short(impl, 200), 'real': short(real, 200)})
         return True
-    if kf and kf in listed and real == impl:
+    if kf and kf in listed and unordered(real) == unordered(impl):
         res.known.setdefault(kf, []).append(case)
         return False
     res.violations.append({'what': 'restored model differs from the persisted one' if not real.startswith('X:')
@@ -749,11 +784,17 @@ def classify_rt(res, ctx, case, real, d, listed):
     return False
 
 
+def case_id(case):
+    if isinstance(case, dict) and 'spec' in case:
+        return {'id': case['spec'].get('id'), 'point': case.get('point'), 'ext': case.get('ext')}
+    return case
+
+
 def diff_obs(a, b):
     """First differing entry of two observable wires (for readable reports)."""
     sa, sb = a.split('|'), b.split('|')
     for name, x, y in zip(['cells', 'formulae', 'defined_names', 'ranges'], sa, sb):
-        ex, ey = x.split(';'), y.split(';')
+        ex, ey = x.split(' '), y.split(' ')
         for i in range(max(len(ex), len(ey))):
             u = ex[i] if i < len(ex) else '<absent>'
             v = ey[i] if i < len(ey) else '<absent>'
@@ -841,7 +882,7 @@ def run_spec(ctx, res, spec, tmpdir, counter, exts_for_point, pending, listed):
             real = obs_wire(m2)
             core1, strict1 = observe(m2)
             dcore = first_diff(core0, core1)
-            if dcore and real == wire0:
+            if dcore and unordered(real) == unordered(wire0):
                 # the two renderings of the observable must not disagree about equality
                 res.drift.append({'case': case, 'what': 'harness: observe() and obs_wire() disagree', 'diff': short(dcore)})
             dstrict = first_diff(strict0, strict1)
@@ -849,10 +890,42 @@ def run_spec(ctx, res, spec, tmpdir, counter, exts_for_point, pending, listed):
                 res.drift.append({'case': {'id': spec['id'], 'point': pname, 'ext': ext},
                                   'what': 'beyond the statement: ' + dstrict[0],
                                   'orig': short(dstrict[1], 120), 'restored': short(dstrict[2], 120)})
+            if ext == exts_for_point(p)[0] and unordered(real) == unordered(wire0):
+                # (a) the restored model can be persisted again (its own driver request: it is another state)
+                case2 = dict(case, then='persist the restored model again')
+                graph2 = graph_wire(m2)
+                counter[0] += 1
+                try:
+                    m3, _ = round_trip(m2, '.gz' if not expect_gz else '.json', tmpdir, counter[0])
+                    again = obs_wire(m3)
+                except RecursionError:
+                    again = 'X:RecursionError'
+                except Exception as exc:  # noqa: BLE001
+                    again = 'X:' + type(exc).__name__
+                res.count('second-round-trip')
+                line2 = '\t'.join(['C12', 'RT', w_text('m.json'), '1', 'all', str(SAFE_DEPTH), graph2])
+
+                def done2(d, case2=case2, again=again, wire0=wire0):
+                    classify_rt(res, ctx, case2, again, dict(d, spec=wire0), listed)
+                pending.append((line2, done2))
+                # (b) loading without build_code, then compiling by hand, is loading with build_code=True
+                counter[0] += 1
+                try:
+                    m4, _ = round_trip(orig, ext, tmpdir, counter[0], build_code=False)
+                    m4.build_code()
+                    by_hand = obs_wire(m4)
+                    ev4 = evaluate_all(m4)
+                except Exception as exc:  # noqa: BLE001
+                    by_hand, ev4 = 'X:' + type(exc).__name__, None
+                res.evaluations += 1
+                res.count('build_code-by-hand')
+                if unordered(by_hand) != unordered(wire0) or (ev4 is not None and first_diff(ev_ref, ev4)):
+                    res.violations.append({'what': 'construct_from_json_file(build_code=False) + build_code() differs',
+                                           'input': case, 'expected': short(wire0, 300), 'got': short(by_hand, 300)})
             # evaluate every cell of the restored model
             ev2 = evaluate_all(m2)
             dev = first_diff(ev_ref, ev2)
-            if dev and real == wire0:
+            if dev and unordered(real) == unordered(wire0):
                 res.violations.append({'what': 'a cell of the restored model evaluates differently', 'input': case,
                                        'expected': {dev[0]: dev[1]}, 'got': {dev[0]: dev[2]}})
             reals.append((case, real, dcore, len(kinds)))
@@ -879,17 +952,17 @@ def run_spec(ctx, res, spec, tmpdir, counter, exts_for_point, pending, listed):
                                   'what': 'the Lean model does not find this reachable state Persistable',
                                   'enc': d.get('enc'), 'depth': d.get('depth')})
             if len(res.samples) < 12:
-                res.sample({'model': spec['id'], 'point': pname, 'cells': len(wire0.split('|')[0].split(';')),
+                res.sample({'model': spec['id'], 'point': pname, 'cells': len(wire0.split('|')[0].split(' ')),
                             'persistable': d.get('persistable'), 'depth': d.get('depth'), 'kf': d.get('kf', ''),
-                            'real_equals_spec': all(r[1] == wire0 for r in reals)})
+                            'real_equals_spec': all(unordered(r[1]) == unordered(wire0) for r in reals)})
         pending.append((line, done))
 
 
-def run_codec(ctx, res, tmpdir, pending):
+def run_codec(ctx, res, tmpdir, pending, only=None):
     """Tricky file names: which opener the writer really used (magic bytes), whether the reader gets the model
     back, against the reference rule and the Lean model."""
     from xlcalculator import ModelCompiler, Model
-    for i, name in enumerate(CODEC_NAMES):
+    for i, name in enumerate(CODEC_NAMES if only is None else [only]):
         m = ModelCompiler().read_and_parse_dict({'Sheet1!A1': 1, 'Sheet1!B1': '=A1+1'})
         base = os.path.join(tmpdir, f'codec{i}')
         path = os.path.join(base, name)
@@ -953,12 +1026,15 @@ def run_strict(ctx, res, specs, tmpdir, counter, pending, listed):
             pending.append((line, done))
 
 
-def run_workbooks(ctx, res, tmpdir, counter, pending, listed):
+def run_workbooks(ctx, res, tmpdir, counter, pending, listed, only=None):
     from xlcalculator import ModelCompiler
-    books = ['defined_names.xlsx', 'cross_sheet.xlsx', 'SUM.xlsx', 'IF.xlsx', 'DATE.xlsx', 'VLOOKUP.xlsx',
-             'logical.xlsx', 'CONCAT.xlsx']
+    # (cross_sheet.xlsx refers to a whole column: a million cells — too large for a round trip per run)
+    books = ['defined_names.xlsx', 'SUM.xlsx', 'IF.xlsx', 'model_compiler_and_evaluate.xlsx', 'DATE.xlsx',
+             'VLOOKUP.xlsx', 'logical.xlsx', 'CONCAT.xlsx']
     if ctx.tier == 'quick' and not ctx.widen:
         books = books[:4]
+    if only is not None:
+        books = [only]
     for b in books:
         path = common.REPO / 'tests' / 'resources' / b
         if not path.exists():
@@ -975,6 +1051,9 @@ def run_workbooks(ctx, res, tmpdir, counter, pending, listed):
             except Exception as exc:  # noqa: BLE001 - loading is C11's business
                 res.notes.append(f'workbook {b} could not be loaded: {type(exc).__name__}')
                 break
+            if len(orig.cells) > 400:
+                res.notes.append(f'workbook {b} skipped: {len(orig.cells)} cells')
+                break
             wire0 = obs_wire(orig)
             graph = graph_wire(orig)
             ev_ref = evaluate_all(ref)
@@ -987,7 +1066,7 @@ def run_workbooks(ctx, res, tmpdir, counter, pending, listed):
                     real = obs_wire(m2)
                     ev2 = evaluate_all(m2)
                     dev = first_diff(ev_ref, ev2)
-                    if dev and real == wire0:
+                    if dev and unordered(real) == unordered(wire0):
                         res.violations.append({'what': 'a cell of the restored workbook model evaluates differently',
                                                'input': case, 'expected': {dev[0]: dev[1]}, 'got': {dev[0]: dev[2]}})
                 except Exception as exc:  # noqa: BLE001
@@ -1056,7 +1135,9 @@ def real_failure(spec, pname, ext):
 
 def run(ctx):
     import json
+    import logging
     import xlcalculator  # noqa: F401
+    logging.disable(logging.WARNING)     # the loader's warnings about names it skips are not this check's output
     res = Result()
     res.rule = (
         'generated acyclic models (1-3 sheets incl. names with blanks / non-ASCII; ints incl. > 2^64, floats incl. '
@@ -1080,15 +1161,18 @@ def run(ctx):
             inp = v.get('input') or {}
             if 'spec' in inp:
                 specs.append(inp['spec'])
+            replay_name = inp.get('file_name')
+            replay_book = inp.get('workbook')
         else:
             cdir = common.CORPUS / 'C12'
             if cdir.exists():
                 for f in sorted(cdir.glob('*.json')):
                     specs.append(json.loads(f.read_text()))
-            specs.extend(deep_specs() if thorough else deep_specs()[:1] + deep_specs()[3:4])
-            n = 640 if thorough else 22
+            n = 640 if ctx.tier == 'thorough' else (200 if ctx.widen else 22)
             for i in range(n):
                 specs.append(gen_spec(rng, i, big=(i % 8 == 7)))
+            specs.extend(deep_specs() if thorough else deep_specs()[:1] + deep_specs()[3:4])
+            specs.extend(special_specs())
         ncorpus = len(specs)
         for i, spec in enumerate(specs):
             full = thorough or i < 6 or isinstance(spec['id'], str)
@@ -1099,7 +1183,14 @@ def run(ctx):
                 # rotate: two extensions per point (one plain, one gzip spelling)
                 return ['.json', EXTS[1 + (i + p) % 3]] if (i + p) % 2 == 0 else [EXTS[1 + (i + p) % 3], EXTS[1 + (i + p + 1) % 3]]
             run_spec(ctx, res, spec, tmpdir, counter, exts_for_point, pending, listed)
-        if not ctx.replay:
+        if ctx.replay:
+            if replay_name is not None:
+                run_codec(ctx, res, tmpdir, pending, only=replay_name)
+            if replay_book is not None:
+                run_workbooks(ctx, res, tmpdir, counter, pending, listed, only=replay_book)
+            if specs and 'import_fallback' in inp:
+                run_strict(ctx, res, specs, tmpdir, counter, pending, listed)
+        else:
             run_codec(ctx, res, tmpdir, pending)
             gen_only = [s for s in specs if not isinstance(s['id'], str)]
             run_strict(ctx, res, gen_only[:(40 if thorough else 5)], tmpdir, counter, pending, listed)
